@@ -62,34 +62,49 @@ CONSTANTS MaxSteps, MaxOps
 Slots == {1, 2, 3}
 SecretNames == {"s1", "s2"}
 HostSets == {"a", "b", "ab"}
-NoIng == [acme |-> FALSE, sec |-> "none", hosts |-> "none"]
-IngVals == [acme : BOOLEAN, sec : SecretNames, hosts : HostSets]
+(* acme: how the ingress asks for a certificate -- "no", "signer" (cert-signer: acme) or "ann" (kubernetes.io/tls-acme: "true",
+   which only counts with --acme-track-tls-annotation) *)
+NoIng == [acme |-> "no", sec |-> "none", hosts |-> "none"]
+IngVals == [acme : {"no", "signer", "ann"}, sec : SecretNames, hosts : HostSets]
+Asks(v, trackann) == v.acme = "signer" \/ (v.acme = "ann" /\ trackann)
 
 (* what the cluster wants: secret -> domains of every acme tls block that names it *)
-Wanted(ing) ==
-    LET users(s) == {i \in Slots : ing[i].sec = s /\ ing[i].acme} IN
+Wanted(ing, trackann) ==
+    LET users(s) == {i \in Slots : ing[i].sec = s /\ Asks(ing[i], trackann)} IN
     [s \in {x \in SecretNames : users(x) # {}} |-> UNION {Names(ing[i].hosts) : i \in users(s)}]
 
-VARIABLES ing, leader, batch, hist
-bvars == <<ing, leader, batch, hist>>
+VARIABLES ing, leader, batch, hist, trackann
+bvars == <<ing, leader, batch, hist, trackann>>
 
-InitB == ing = [i \in Slots |-> NoIng] /\ leader = TRUE /\ batch = <<>> /\ hist = <<>>
+InitB == ing = [i \in Slots |-> NoIng] /\ leader = TRUE /\ batch = <<>> /\ hist = <<>> /\ trackann \in BOOLEAN
 
-SetIng(i, v) == ing[i] # v /\ ing' = [ing EXCEPT ![i] = v] /\ batch' = Append(batch, [slot |-> i, v |-> v]) /\ UNCHANGED <<leader, hist>>
+SetIng(i, v) == ing[i] # v /\ ing' = [ing EXCEPT ![i] = v] /\ batch' = Append(batch, [slot |-> i, v |-> v]) /\ UNCHANGED <<leader, hist, trackann>>
 
 (* a reconciliation takes the batch; full: a full resync was asked for (ConfigMap / class change, leader acquired);
    lead: whether this controller leads during this step *)
-Sync(full, lead) ==
+Sync(full, lead, fail) ==
     /\ (batch # <<>> \/ full)
     /\ (lead /\ ~leader => full)        \* acquiring the lease enqueues a full resync
-    /\ hist' = Append(hist, [ops |-> batch, full |-> full, leader |-> lead, ing |-> ing])
+    \* fail: applying the configuration fails (a reload that does not come up); the controller retries by itself, which is a full resync
+    /\ hist' = Append(hist, [ops |-> batch, full |-> full, leader |-> lead, ing |-> ing, ing0 |-> ing, trackann |-> trackann, fail |-> fail, late |-> <<>>])
     /\ batch' = <<>> /\ leader' = lead
-    /\ UNCHANGED ing
+    /\ UNCHANGED <<ing, trackann>>
+
+(* a change that arrives after a failed update and before the controller's retry: the retry takes it in its batch
+   (ing0 keeps the state the failed attempt saw; when the update does not fail after all, the change simply belongs to
+   the next batch) *)
+SetIngLate(i, v) ==
+    /\ hist # <<>> /\ hist[Len(hist)].fail /\ hist[Len(hist)].late = <<>> /\ batch = <<>>
+    /\ ing[i] # v
+    /\ ing' = [ing EXCEPT ![i] = v]
+    /\ hist' = [hist EXCEPT ![Len(hist)].late = <<[slot |-> i, v |-> v]>>, ![Len(hist)].ing = ing']
+    /\ UNCHANGED <<leader, batch, trackann>>
 
 NextB ==
-    /\ Len(hist) < MaxSteps
-    /\ \/ Len(batch) < MaxOps /\ \E i \in Slots, v \in IngVals \cup {NoIng} : SetIng(i, v)
-       \/ \E f \in BOOLEAN, ld \in BOOLEAN : Sync(f, ld)
+    \/ \E i \in Slots, v \in IngVals \cup {NoIng} : SetIngLate(i, v)
+    \/ /\ Len(hist) < MaxSteps
+       /\ \/ Len(batch) < MaxOps /\ \E i \in Slots, v \in IngVals \cup {NoIng} : SetIng(i, v)
+          \/ \E f \in BOOLEAN, ld \in BOOLEAN, fl \in BOOLEAN : Sync(f, ld, fl)
 
 SpecB == InitB /\ [][NextB]_bvars
 EmitB == (Len(hist) = MaxSteps) => PrintT(<<"BEHAVIOUR", ToJson(hist)>>)
@@ -101,7 +116,8 @@ Items(wanted) == {[sec |-> s, doms |-> wanted[s]] : s \in DOMAIN wanted}
 
 (* Judgement of one step.  known: what the previous sync left as the controller's view (Items); now: Items wanted
    after this step; adds / dels: items handed to the queue behind the facade. *)
-StepBroken(known, now, st, adds, dels) ==
+StepBroken(known, now, st0, adds, dels) ==
+    LET st == [st0 EXCEPT !.full = st0.full \/ st0.fail] IN
     IF ~st.leader THEN (IF adds # {} THEN "NonLeaderEnqueues" ELSE "none")
     ELSE IF ~st.full /\ ~((now \ known) \subseteq adds) THEN "EnqueueChanged"
     ELSE IF st.full /\ ~(now \subseteq adds) THEN "EnqueueChanged"
@@ -109,5 +125,15 @@ StepBroken(known, now, st, adds, dels) ==
     ELSE IF ~st.full /\ adds \cap known # {} THEN "NoReenqueue"
     ELSE IF ~((known \ now) \subseteq dels) THEN "RemoveGone"
     ELSE IF dels \cap now # {} THEN "RemoveGone"
+    ELSE "none"
+
+(* A failed update whose retry took late changes: the first attempt legitimately enqueued what the intermediate state (mid)
+   wanted.  What the final state wants is enqueued by the retry (a full resync), and whatever was known or enqueued on the
+   way and is not wanted any more is removed. *)
+LateStepBroken(known, mid, now, st, adds, dels) ==
+    IF ~st.leader THEN (IF adds # {} THEN "NonLeaderEnqueues" ELSE "none")
+    ELSE IF ~(now \subseteq adds) THEN "EnqueueChanged"
+    ELSE IF ~(adds \subseteq now \cup mid) THEN "EnqueueChanged"
+    ELSE IF ~(((known \cup mid) \ now) \subseteq dels) THEN "RemoveGone"
     ELSE "none"
 =============================================================================
